@@ -175,7 +175,13 @@ func runC01(c *fw.Ctx, idx int) fw.Result {
 		dir := filepath.Join(c.Tmp, fmt.Sprintf("c01-%d", idx))
 		os.MkdirAll(dir, 0755)
 		os.WriteFile(filepath.Join(dir, "in.sam"), []byte(sf.Text), 0644)
-		args := []string{"sam", "toMultiAlign", "-s", filepath.Join(dir, "in.sam"), "-o", filepath.Join(dir, "out.fasta"), "-t", fmt.Sprint(threads)}
+		args := []string{"sam", "toMultiAlign", "-o", filepath.Join(dir, "out.fasta"), "-t", fmt.Sprint(threads)}
+		var stdin []byte
+		if idx%80 == 40 {
+			stdin = []byte(sf.Text) // -s defaults to stdin
+		} else {
+			args = append(args, "-s", filepath.Join(dir, "in.sam"))
+		}
 		if s != -1 {
 			args = append(args, "--start", fmt.Sprint(s))
 		}
@@ -190,7 +196,7 @@ func runC01(c *fw.Ctx, idx int) fw.Result {
 			// the output file already exists and holds a longer earlier result
 			os.WriteFile(filepath.Join(dir, "out.fasta"), []byte(staleContent(len(expected)+300)), 0644)
 		}
-		br := fw.RunBin(c.Bin, args, nil, nil, "", 60*time.Second)
+		br := fw.RunBin(c.Bin, args, stdin, nil, "", 60*time.Second)
 		res.Evals++
 		res.Count("binary_runs", 1)
 		ob, _ := os.ReadFile(filepath.Join(dir, "out.fasta"))
